@@ -106,7 +106,10 @@ def to_harness(c):
 def run(ctx):
     if ctx.replay:
         rep = json.load(open(ctx.replay))["replay"]
-        judge(ctx, [rep], execute(ctx, [rep]))
+        if rep.get("mode") == "connect":
+            connect_pipeline(ctx, [rep])
+        else:
+            judge(ctx, [rep], execute(ctx, [rep]))
         return
     consts = {
         "MaxLen": ctx.pick(3, 4),
@@ -271,14 +274,15 @@ CONNECT_CLASS = {"ok": ("",), "MissingCryptoProvider": ("nocrypto",), "Dial": ("
                  "HandshakeDenied": ("handshake-denied",), "HandshakeBroken": ("handshake",)}
 
 
-def connect_pipeline(ctx):
+def connect_pipeline(ctx, cases=None):
     """TLC enumerates client configuration x scripted relay; the real connect() must end in the model's error class and
     the relay must have seen what the model says.  A disagreement about whether an answer's version is accepted is a C11
     violation; any other disagreement means the pipeline model has drifted from the code (tool error, not a violation)."""
-    res = ctx.tlc("relay", "RelayClientConnect", mode="gen", timeout=900,
-                  require_actions=["MapUrl", "NeedTlsConfig", "Dial", "BuildRequest", "Upgrade", "CheckVersion", "Handshake",
-                                   "Connected"])
-    cases = res.replays
+    if cases is None:
+        res = ctx.tlc("relay", "RelayClientConnect", mode="gen", timeout=900,
+                      require_actions=["MapUrl", "NeedTlsConfig", "Dial", "BuildRequest", "Upgrade", "CheckVersion", "Handshake",
+                                       "Connected"])
+        cases = res.replays
     inp = []
     for c in cases:
         status, proto, close = CONNECT_ANSWER[c["srv"]["answer"]]
